@@ -250,3 +250,108 @@ Example mask_threshold_example :
   /\ compute_mask_raw [10; 0; 1; 9; 2; 0; 10; 1]%Q [10; 0; 1; 9; 2; 0; 10; 1]%Q (1 # 4) (7 # 8) false
      = Some [true; false; false; true; false; false; true; false].
 Proof. vm_compute. split; reflexivity. Qed.
+
+(* ====================================================================== *)
+(* core/utils/generators.py and algorithms/utils/pca.py                    *)
+(* ====================================================================== *)
+From Coq Require Import Sorted.
+From NV.C19 Require Import GenModel GenProofs PcaModel.
+(* ---- paste into coq/C19/Properties.v.  Needs:
+     From Coq Require Import ZArith List Bool Arith Lia Sorted QArith.   (QArith already imported there)
+     From NV.C19 Require Import GenModel GenProofs PcaModel.
+   (Properties.v does `Close Scope Q_scope`; Q statements below carry explicit %Q.) *)
+
+(* (G1) slice_generator with ONE or TWO axes (all lengths): below nmax the code's `int(n / div % mod)`
+   indices are the documented mixed-radix digits (first axis fastest), the generated index
+   combinations are pairwise distinct and are exactly the in-range combinations. *)
+Theorem slice_generator_bijective : forall lens : list nat,
+  length lens = 1 \/ length lens = 2 ->
+  let idxs := map (sg_xs lens) (seq 0 (seq_prod lens)) in
+  (forall n, n < seq_prod lens -> sg_xs lens n = doc_index lens n) /\
+  NoDup idxs /\
+  (forall t, In t idxs <-> Forall2 lt t lens).
+Proof. exact slice_generator_bijective_proof. Qed.
+Print Assumptions slice_generator_bijective.
+
+(* (G2) ... and every assembled index tuple is accepted (no IndexError), all nmax items are yielded *)
+Theorem slice_generator_no_error_one_or_two_axes : forall (shape : list nat) (flat : list Z) (axes : list nat),
+  length axes = 1 \/ length axes = 2 ->
+  Forall (fun a => a < length shape) axes ->
+  snd (take_ok shape flat (sg_tuples shape axes)) = false /\
+  map fst (fst (take_ok shape flat (sg_tuples shape axes))) = sg_tuples shape axes.
+Proof. exact slice_generator_no_error_proof. Qed.
+Print Assumptions slice_generator_no_error_one_or_two_axes.
+
+(* (G3) FINDING: three axes - the modulus is the cumulative product, so a middle axis gets an
+   out-of-range index: lens [2;2;3], n = 4 gives x = 2 for an axis of length 2 (IndexError). *)
+Theorem slice_generator_three_axes_refuted :
+  exists (lens : list nat) (n j : nat),
+    length lens = 3 /\ n < seq_prod lens /\ j < 3 /\
+    nth j lens 0 <= nth j (sg_xs lens n) 0 /\
+    nth j (sg_xs lens n) 0 <> doc_digit lens j n /\
+    sg_list [2; 2; 3] (map Z.of_nat (seq 0 12)) [0; 1; 2]%Z
+    = ([([0; 0; 0], [0]); ([1; 0; 0], [6]); ([0; 1; 0], [3]); ([1; 1; 0], [9])]%Z, true).
+Proof. exact slice_generator_three_axes_refuted_proof. Qed.
+Print Assumptions slice_generator_three_axes_refuted.
+
+(* (G4) FINDING: int branch with a negative axis: (slice(None),)*axis is empty, axis 0 is sliced
+   with the extent of the requested axis: shape (1,2), axis=-1 yields data[0] then IndexError. *)
+Theorem slice_generator_negative_int_axis_refuted :
+  exists (shape : list nat) (axis : Z), (axis < 0)%Z /\ norm_axis (length shape) axis = Some 1 /\
+    sg_int shape (map Z.of_nat (seq 0 2)) axis = ([([0], [0; 1])]%Z, true) /\
+    sg_int shape (map Z.of_nat (seq 0 2)) 1%Z = ([([whole; 0], [0]); ([whole; 1], [1])]%Z, false).
+Proof. exact slice_generator_negative_int_axis_refuted_proof. Qed.
+Print Assumptions slice_generator_negative_int_axis_refuted.
+
+(* (G5) parcels(data): one mask per distinct value, none empty, every position in exactly one mask *)
+Theorem parcels_partition : forall data : list Z,
+  let masks := parcels_default data in
+  length masks = length (unique data) /\
+  (forall m, In m masks -> length m = length data /\ existsb (fun b => b) m = true) /\
+  (forall p, p < length data ->
+     exists k, k < length masks /\ nth p (nth k masks []) false = true /\
+       forall k', k' < length masks -> nth p (nth k' masks []) false = true -> k' = k).
+Proof. exact parcels_partition_proof. Qed.
+Print Assumptions parcels_partition.
+
+(* (G6) a tuple/list label yields the union of its values' masks (v += equal(data, l); astype(bool)) *)
+Theorem parcels_union_label : forall (data ls : list Z) (p : nat), p < length data ->
+  nth p (mask_many data ls) false = existsb (fun l => (nth p data 0 =? l)%Z) ls.
+Proof. exact mask_many_union. Qed.
+Print Assumptions parcels_union_label.
+
+Example slice_generator_pair_nonvacuous :
+  map (sg_xs [2; 3]) (seq 0 (seq_prod [2; 3])) = [[0; 0]; [1; 0]; [0; 1]; [1; 1]; [0; 2]; [1; 2]].
+Proof. vm_compute. reflexivity. Qed.
+Example parcels_nonvacuous :
+  parcels_default [3; 1; 2; 1]%Z = [[false; true; false; true]; [false; false; true; false]; [true; false; false; false]].
+Proof. vm_compute. reflexivity. Qed.
+
+(* (P1) pcntvar = D * 100 / D.sum() sums to 100 *)
+Theorem pca_percent_sums_100 : forall D : list Q, ~ (qsum D == 0)%Q -> (qsum (pcntvar D) == 100)%Q.
+Proof. exact pca_percent_sums_100_proof. Qed.
+Print Assumptions pca_percent_sums_100.
+
+(* (P2) eigenvalues sorted non-increasing with positive sum give non-increasing percentages *)
+Theorem pca_percent_order : forall D : list Q, noninc D -> (0 < qsum D)%Q -> noninc (pcntvar D).
+Proof. exact pca_percent_order_proof. Qed.
+Print Assumptions pca_percent_order.
+
+(* (P3) mask-weighted covariance accumulated slab by slab = plain covariance sum over the
+   extracted (masked-in) voxels; any commutative ring, 0/1 weights *)
+Theorem pca_mask_equals_extracted :
+  forall (R : Type) (r0 r1 : R) (radd rmul rsub : R -> R -> R) (ropp : R -> R),
+  ring_theory r0 r1 radd rmul rsub ropp (@eq R) ->
+  forall (slabs : list (list (voxel R))) (i j : nat),
+  cov_masked R r0 r1 radd rmul slabs i j = cov_plain R r0 radd rmul (extracted R slabs) i j.
+Proof. exact pca_mask_equals_extracted_proof. Qed.
+Print Assumptions pca_mask_equals_extracted.
+
+Example pca_percent_nonvacuous : pcntvar [6; 3; 1]%Q = [6 * 100 / (6 + (3 + (1 + 0))); 3 * 100 / (6 + (3 + (1 + 0))); 1 * 100 / (6 + (3 + (1 + 0)))]%Q
+  /\ (qsum (pcntvar [6; 3; 1]) == 100)%Q.
+Proof. split; [reflexivity|vm_compute; reflexivity]. Qed.
+Example pca_mask_nonvacuous :
+  cov_masked Z 0%Z 1%Z Z.add Z.mul
+    [[(true, fun i => Z.of_nat (i + 1)); (false, fun i => 7%Z)]; [(true, fun i => Z.of_nat (2 * i + 1))]] 0 1 = 5%Z
+  /\ length (extracted Z [[(true, fun i => Z.of_nat (i + 1)); (false, fun i => 7%Z)]; [(true, fun i => Z.of_nat (2 * i + 1))]]) = 2.
+Proof. vm_compute. split; reflexivity. Qed.
